@@ -222,7 +222,34 @@ def values_job(job):
                     call_expect(w, gen, fn, f"at{gen} ac1 reported on={on} off={off}: {'clear' if new is None else 'set'} {which}",
                                 f"at{gen}:timer-other-untouched", bad, True,
                                 lambda r: cc.match_timer_control(gen, r, 1, which, cc.timer_state(new), rep[other]), kind="timer-control")
-                    # the console confirms nothing: the model keeps the last *reported* pair
+        # a timer command that never reaches the console (queued during an outage that outlasts its lifetime): what the
+        # next command says about the OTHER timer is still what the console last reported, not what was asked for
+        for tt in A.AcTimerType:
+            which = "on" if tt.name == "ON_TIMER" else "off"
+            other = "off" if which == "on" else "on"
+            rep = {"ac": 1, "on": cc.timer_state(None), "off": cc.timer_state(None)}
+            rep[other] = cc.timer_state((22, 10))
+            w.console.state["timer"][1] = rep
+            w.console.send_raw(w.console.timer_status_frame())
+            w.loop.settle()
+            other_tt = [x for x in A.AcTimerType if x is not tt][0]
+            w.net.auto = None
+            w.net.live()[-1].peer_eof()
+            w.loop.settle()
+            n0 = len(w.console.requests)
+            w.call(lambda: ac.set_quick_timer(other_tt, datetime.time(hour=5, minute=5)), "lost timer command")
+            w.loop.run_until(w.loop.time() + 31.0)
+            w.net.auto = "accept"
+            w.net.resolve_all(True)
+            w.loop.run_until(w.loop.time() + 3.0)
+            n += 1
+            if any(r[2] == "cmd-timer" for r in w.console.requests[n0:]):
+                bad.append((f"at{gen}:timer-command-after-expiry", f"at{gen}: a timer command queued 31 s before the link came back was transmitted"))
+                continue
+            call_expect(w, gen, lambda: ac.set_quick_timer(tt, datetime.time(hour=6, minute=45)),
+                        f"at{gen} ac1: set {other} timer during an outage (lost after 30 s), then set {which}",
+                        f"at{gen}:timer-other-untouched", bad, True,
+                        lambda r: cc.match_timer_control(gen, r, 1, which, cc.timer_state((6, 45)), rep[other]), kind="timer-control")
     k = len(JUDGED)
     JUDGED.clear()
     return n, bad, k
